@@ -446,6 +446,15 @@ class NF:
             ifs = tuple(self.ev(i, env2) for i in g.ifs)
             out.append((src, ifs))
         body = self.ev(e.elt, env2)
+        # fusion: [B(v) for v in [A(w) for w in S] if C(v)]  ->  [B(A(w)) for w in S if C(A(w))]
+        if len(out) == 1 and out[0][0][0] == "map" and isinstance(gens[0].target, ast.Name):
+            src, ifs = out[0]
+            var = ("var", env.vdepth)
+            inner_var, inner_body, inner_src = src[1][1], src[1][2], src[2]
+            repl = subst(inner_body, inner_var, var)
+            body = self.simplify(subst(body, var, repl), env)
+            ifs = tuple(self.simplify(subst(i, var, repl), env) for i in ifs)
+            out = [(inner_src, ifs)]
         return ("comp", body, tuple(out))
 
     def _bind_target(self, tg, var, env):
@@ -907,8 +916,13 @@ class NF:
         if a == b:
             return a
         # polarity: not c ? a : b  ==  c ? b : a
-        if c[0] == "op" and c[1] == "not" and len(c[2]) == 1:
+        if c[0] == "op" and c[1] in ("not", "Not") and len(c[2]) == 1:
             return self.mk_ite(c[2][0], b, a)
+        # c ? X : False  ==  c and X   when c is a genuine boolean (isinstance / comparison)
+        is_bool = (c[0] == "call" and c[1] == "isinstance") or (c[0] == "op" and str(c[1]).startswith("cmp:"))
+        if is_bool and b == const(False):
+            parts = list(a[2]) if a[0] == "op" and a[1] == "And" else [a]
+            return ("op", "And", tuple([c] + parts))
         return ("ite", c, a, b)
 
     def body(self, m: ast.FunctionDef, env: Env):
